@@ -254,6 +254,7 @@ add(
       "every buffer of length <= 8 x every start index x first in {true,false} x every E; escape-free keys", stubs=[CUT_SYNTAX, M_WS, M_ONE, M_KEY], cost=110),
     H("m_end_seq_map_n6", "main", ["C02"], ["Deserializer::end_seq", "Deserializer::end_map", "Parser::parse_array_end"],
       "every buffer of length <= 6 x every start index", stubs=[CUT_SYNTAX, M_WS], cost=4),
+    H("m_stream_latch_any_outcome", "main", ["C20"], ["StreamDeserializer::next"], "arbitrary latch state x the item's Deserialize answering Ok or an error of any category (syntax, eof, type mismatch, not found); two consecutive calls", cost=15),
     H("m_stream_latch_n5", "main", ["C20"], ["StreamDeserializer::next", "Deserializer::into_stream"],
       "every buffer of length <= 5 x every start index x arbitrary latch state x every E; two consecutive calls", stubs=[CUT_SYNTAX, M_WS, M_ONE], cost=4),
     H("u_deserialize_rawnumber_n7", "main", ["C08", "C02"], ["Deserializer::deserialize_rawnumber"],
